@@ -42,7 +42,8 @@ class Recorder:
               'rhos': valuations(rho_node if rho_node is not None else pin, limit=self.nval, rnd=self.rnd)}
         if extra:
             ev.update(extra)
-        self.events.append(ev)
+        # the first events stay inspectable (canaries are made from them); the rest are kept as JSON text
+        self.events.append(ev if len(self.events) < 4000 else tlc.pack(ev))
         self.info[self.eid] = {'op': op, 'text': text, 'out': out, 'result': desc}
         self.rep.clause('%s:%s' % (op, out))
         return ev
@@ -130,9 +131,19 @@ class Recorder:
         except Exception as e:  # noqa
             self.add('canonical_form', text, pin, exc_name(e), [], rho_node={'cls': 'None'}, desc=repr(e)[:200])
 
+    def dict_events(self):
+        return [e for e in self.events if isinstance(e, dict)]
+
+    def event_dict(self, i):
+        import json
+        for e in self.events:
+            if e['id'] == i:
+                return e if isinstance(e, dict) else json.loads(e.text)
+        raise KeyError(i)
+
     # ---- validation ------------------------------------------------------------------
     def validate(self, canary_maker=None):
-        canaries = canary_maker(self.events) if canary_maker else []
+        canaries = canary_maker(self.dict_events()) if canary_maker else []
         res = tlc.validate_batch('T_Rewrite', self.events + canaries, heap='3g')
         self.rep.add_tlc(res)
         self.rep.add_traces(res['consumed'] - len(canaries))
